@@ -63,8 +63,20 @@ def c01(tier, seed):
     )
 
 
+def c11(tier, seed):
+    return generic(
+        "C11", tier, seed,
+        rule="layer readers built as `mlar info` builds them over model-encoded streams of every plaintext length are driven in lock-step "
+             "with std::io::Cursor over the same plaintext (seek from start/current/end to targets in [0,len], reads, position queries); "
+             "one evaluation = one (layer, length) with its set of histories; distinct = distinct (layer, length, seed); non-trivial = at least 2 operations",
+        musthit=["musthit:seek_to_len", "musthit:seek_end_len_multiple_of_chunk", "musthit:position_query_in_last_partial_chunk",
+                 "lenclass:enc:len%chunk=0", "lenclass:enc:len<tag", "lenclass:comp:len%block=0"],
+    )
+
+
 PROPS = {
     "C01": c01,
+    "C11": c11,
 }
 
 
